@@ -25,6 +25,7 @@ def successful_cond(prog: Program, reply: T.Term) -> T.Term:
     ci = prog.cls(f"{MSGS}:SwitcherBaseResponse")
     I = Interp(prog)
     st = I.new_state()
+    ci.require_attrs(["unparsed_response"], "symbolic response")
     obj = st.alloc(HeapObj("obj", ci, {"unparsed_response": reply}, [], False, "resp", True))
     v = I.getattr(obj, "successful", st, Ctx(None, ci.module, 0), ci.node)
     return I.truth(v, st)
